@@ -50,6 +50,15 @@ fn receiver_clone_and_drop_count_handles() {
     core::mem::forget((s, r));
 }
 
+/// the constructor: one live handle per counted side, channel open -- so "count == number of live handles" holds from the start
+#[kani::proof]
+fn fresh_pair_counts_one_handle_per_side() {
+    let (s, r) = generic_oneshot_broadcast_channel::<NoopLock, u8>();
+    assert!(s.inner.receivers.load(Ordering::Relaxed) == 1, "[C11] a new shared channel counts exactly one receiver handle");
+    assert!(!closed_flag(&s.inner.channel), "[C11] a new shared channel is open");
+    core::mem::forget((s, r));
+}
+
 unsafe fn nw_clone(_: *const ()) -> core::task::RawWaker {
     core::task::RawWaker::new(core::ptr::null(), &NOOP)
 }
